@@ -225,69 +225,168 @@ Proof.
   destruct (target k fe) as [y|]; [|discriminate]. apply String.eqb_eq in Ht. subst. reflexivity.
 Qed.
 
-(* ---------- get after set ---------- *)
-Theorem set_get_generic k p v d x g e :
-  tables_symmetric k = true ->
-  settable k p = Some x -> to_for k x = Some (g, RPrimary e) -> (forall y, e <> EImagePair y) ->
-  value_ok k p v = true -> readable k d = true ->
-  exists d', set_property k p (Some v) d = Ok d' /\ get_property k p d' = Ok (stored k p v).
+(* ---------- writing a blank sliver over the node's properties ---------- *)
+(* an attribute that holds a value of its kind is written, also as one half of the image pair *)
+Lemma attr_emits k a x w :
+  tables_symmetric k = true -> In x (data_attrs k) -> attr_ok k a x = true -> alookup x a = Some (Some w) ->
+  exists g r pv, to_for k x = Some (g, r) /\
+    match r with
+    | RPrimary e => to_entry_val a (x, g, e) = Ok (Some pv)
+    | RPartner x0 => to_entry_val a (x0, g, EImagePair x) = Ok (Some pv)
+    end.
 Proof.
-  intros Hs Hset Htf Hnp Hv Hrd.
-  destruct (settable_parts k p x Hset) as [st [gk [Hfs [Hfg Hxd]]]].
-  destruct (readable_parts k d Hrd) as [[r0 Hr0] NDd].
-  unfold value_ok in Hv. cbn [blank_with] in Hv. rewrite Hfs in Hv.
-  destruct (apply_setter st (Some v)) as [o|] eqn:Eas; cbn [bind] in Hv; [|discriminate].
-  destruct (apply_setter_some _ _ _ Eas) as [w Hw]. subst o.
-  set (a1 := aset x (Some w) (blank k)) in *.
-  destruct (weak_parts k a1 Hv) as [Hkeys Hweak].
-  destruct (to_props_defined_weak k a1 Hs Hkeys Hweak) as [pd Hpd].
-  assert (Hx1 : alookup x a1 = Some (Some w)) by (unfold a1; apply alookup_aset_same).
-  assert (Hst : stored k p v = Some w) by (unfold stored; rewrite Hfs, Eas; reflexivity).
-  exists (aupdate d pd). split.
-  { unfold set_property, set_properties. cbn [blank_with]. rewrite Hfs, Eas. cbn [bind]. fold a1. rewrite Hpd.
-    reflexivity. }
-  rewrite Hst. rewrite aupdate_is_asets.
-  assert (NDpd := to_props_result_nodup k a1 pd Hs Hpd).
-  (* every from-entry reads from the updated dictionary *)
-  assert (Hread : forall fe, In fe (from_table k) ->
-            (alookup (snd (fst fe)) pd = None /\ from_val k (asets pd d) fe = from_val k d fe) \/
-            (exists pv, alookup (snd (fst fe)) pd = Some pv /\ from_val k (asets pd d) fe = from_val k pd fe)).
-  { intros fe Hfe. destruct (alookup (snd (fst fe)) pd) as [pv|] eqn:El.
-    - right. exists pv. split; [reflexivity|]. apply from_val_cong. unfold pget.
-      rewrite (asets_lookup_in pd d _ pv NDpd (alookup_some_in _ _ _ El)). rewrite El. reflexivity.
+  intros Hs Hxd Hok Hx. unfold attr_ok in Hok.
+  destruct (to_for k x) as [[g r]|] eqn:Etf; [|discriminate Hok].
+  destruct (from_for k x) as [[[g2 dc] st]|]; [|discriminate Hok].
+  exists g, r.
+  destruct r as [e|x0].
+  - destruct e.
+    7: { unfold val_ok, aget in Hok. rewrite Hx in Hok. unfold to_entry_val. rewrite Hx.
+         destruct w as [r0| | | | | | ]; try discriminate Hok.
+         destruct (alookup partner a) as [[[t0| | | | | | ]|]|]; try discriminate Hok.
+         eexists. split; reflexivity. }
+    all: match goal with
+         | |- exists pv, _ /\ to_entry_val ?aa (?xx, ?gg, ?e) = _ =>
+             destruct (to_entry_emits k aa xx gg e dc st w) as [pv Hpv];
+               [intros y H; discriminate H | exact Hok | exact Hx | exists pv; split; [reflexivity | exact Hpv]]
+         end.
+  - unfold val_ok, aget in Hok. rewrite Hx in Hok. unfold to_entry_val. rewrite Hx.
+    destruct (alookup x0 a) as [[[r0| | | | | | ]|]|]; try discriminate Hok.
+    destruct w as [t0| | | | | | ]; try discriminate Hok.
+    eexists. split; reflexivity.
+Qed.
+
+(* an attribute that is None is not written, unless its statement is the unguarded one *)
+Lemma attr_skipped k a x g r :
+  to_for k x = Some (g, r) -> alookup x a = Some None -> always_written k x = false ->
+  match r with
+  | RPrimary e => to_entry_val a (x, g, e) = Ok None
+  | RPartner x0 => to_entry_val a (x0, g, EImagePair x) = Ok None
+  end.
+Proof.
+  intros Etf Hx Hal. unfold always_written in Hal. rewrite Etf in Hal.
+  destruct r as [e|x0]; unfold to_entry_val; rewrite ?Hx.
+  - destruct e; try reflexivity. discriminate Hal.
+  - destruct (alookup x0 a) as [[v|]|]; reflexivity.
+Qed.
+
+Section Update.
+  Variables (k : kind) (a1 : attrs) (d pd : props).
+  Hypothesis Hs : tables_symmetric k = true.
+  Hypothesis Hwk : attrs_wf_weak k a1 = true.
+  Hypothesis Hrd : readable k d = true.
+  Hypothesis Hpd : to_props k a1 = Ok pd.
+
+  Lemma upd_cases fe : In fe (from_table k) ->
+    (alookup (snd (fst fe)) pd = None /\ from_val k (aupdate d pd) fe = from_val k d fe) \/
+    (exists pv, alookup (snd (fst fe)) pd = Some pv /\ from_val k (aupdate d pd) fe = Ok (rd k a1 fe)).
+  Proof.
+    intro Hfe. destruct (weak_parts k a1 Hwk) as [Hkeys Hweak].
+    assert (NDpd := to_props_result_nodup k a1 pd Hs Hpd).
+    rewrite aupdate_is_asets.
+    destruct (alookup (snd (fst fe)) pd) as [pv|] eqn:El.
+    - right. exists pv. split; [reflexivity|].
+      rewrite <- (from_val_rd k a1 Hs Hkeys pd Hpd fe Hfe).
+      + apply from_val_cong. unfold pget.
+        rewrite (asets_lookup_in pd d _ pv NDpd (alookup_some_in _ _ _ El)). rewrite El. reflexivity.
+      + intros x' Hx'. eapply emitted_attr_ok; eauto.
     - left. split; [reflexivity|]. apply from_val_cong. unfold pget.
       rewrite asets_lookup_notin; [reflexivity|].
-      intro Hc. destruct (alookup_in_keys _ _ Hc) as [v' Hv']. rewrite Hv' in El. discriminate. }
-  assert (Hall : forall fe, In fe (from_table k) -> exists xv, from_val k (asets pd d) fe = Ok xv).
-  { intros fe Hfe. destruct (Hread fe Hfe) as [[_ Heq]|[pv [El Heq]]]; rewrite Heq.
+      intro Hc. destruct (alookup_in_keys _ _ Hc) as [v' Hv']. rewrite Hv' in El. discriminate El.
+  Qed.
+
+  Lemma upd_readable :
+    exists r, from_props k (aupdate d pd) = Ok r /\
+      forall fe xv, In fe (from_table k) -> from_val k (aupdate d pd) fe = Ok xv ->
+                    alookup (fst xv) r = Some (snd xv).
+  Proof.
+    destruct (readable_parts k d Hrd) as [[r0 Hr0] _].
+    apply from_props_lookup; [exact Hs|].
+    intros fe Hfe. destruct (upd_cases fe Hfe) as [[_ Heq]|[pv [_ Heq]]]; rewrite Heq.
     - apply (from_props_all_ok k d r0 Hr0 fe Hfe).
-    - exists (rd k a1 fe). apply (from_val_rd k a1 Hs Hkeys pd Hpd fe Hfe).
-      intros x' Hx'. eapply emitted_attr_ok; eauto. }
-  destruct (from_props_lookup k (asets pd d) Hs Hall) as [r [Hr Hlk]].
-  unfold get_property. rewrite Hr. cbn [bind]. rewrite Hfg.
-  (* the entry of x *)
-  destruct (from_entry_of_attr k x Hs Hxd) as [fe [Hfe Htx]].
-  destruct (from_for_of_entry k Hs fe x Hfe Htx) as [st' [Hfs' Hff]].
-  destruct (sym_parts k Hs) as [_ [NDg [_ [_ [_ [_ [_ Hent]]]]]]].
-  assert (He := Hent x Hxd). unfold entry_ok in He. rewrite Htf, Hff in He.
-  apply andb_true_iff in He as [Hg Hinv]. apply String.eqb_eq in Hg.
-  assert (Hattr_x : attr_ok k a1 x = true).
-  { destruct (Hweak x Hxd) as [Hn|Hok]; [|exact Hok]. unfold aget in Hn. rewrite Hx1 in Hn. discriminate. }
-  assert (Hval := Hattr_x). unfold attr_ok in Hval. rewrite Htf, Hff in Hval.
-  apply to_for_primary in Htf.
-  destruct (to_entry_emits k a1 x g e (snd fe) st' w Hnp Hval Hx1) as [pv Hpv].
-  unfold to_props in Hpd.
-  destruct (to_props_entries_spec a1 (to_table k) [] pd NDg Hpd) as [Hspec _].
-  destruct (Hspec _ Htf) as [o [Ho Hl]]. rewrite Hpv in Ho. inversion Ho; subst o.
-  unfold gp in Hl. simpl in Hl.
-  assert (Hv2 : from_val k (asets pd d) fe = Ok (rd k a1 fe)).
-  { destruct (Hread fe Hfe) as [[Hnone _]|[pv' [_ Heq]]].
-    - rewrite <- Hg in Hnone. rewrite Hl in Hnone. discriminate.
-    - rewrite Heq. apply (from_val_rd k a1 Hs Hkeys pd Hpd fe Hfe).
-      intros x' Hx'. rewrite Htx in Hx'. inversion Hx'; subst. exact Hattr_x. }
-  specialize (Hlk fe _ Hfe Hv2). unfold rd in Hlk. rewrite Htx in Hlk. cbn [fst snd] in Hlk.
-  unfold aget in Hlk. rewrite Hx1 in Hlk. rewrite Hlk. reflexivity.
-Qed.
+    - eexists. reflexivity.
+  Qed.
+
+  (* the graph property of attribute x, as to_props wrote (or did not write) it *)
+  Lemma pd_lookup x g r : In x (data_attrs k) -> to_for k x = Some (g, r) ->
+    exists o, alookup g pd = match o with Some p => Some p | None => None end /\
+      match r with
+      | RPrimary e => to_entry_val a1 (x, g, e) = Ok o
+      | RPartner x0 => to_entry_val a1 (x0, g, EImagePair x) = Ok o
+      end.
+  Proof.
+    intros Hxd Etf. destruct (sym_parts k Hs) as [_ [NDg _]].
+    assert (Hpd' := Hpd). unfold to_props in Hpd'.
+    destruct (to_props_entries_spec a1 (to_table k) [] pd NDg Hpd') as [Hspec _].
+    destruct r as [e|x0].
+    - apply to_for_primary in Etf. destruct (Hspec _ Etf) as [o [Ho Hl]]. exists o. split; [exact Hl | exact Ho].
+    - apply to_for_partner in Etf. destruct (Hspec _ Etf) as [o [Ho Hl]]. exists o. split; [exact Hl | exact Ho].
+  Qed.
+
+  Lemma entry_of_attr x : In x (data_attrs k) ->
+    exists fe g r st, In fe (from_table k) /\ target k fe = Some x /\ snd (fst fe) = g /\
+                      to_for k x = Some (g, r) /\ find_setter k (fst (fst fe)) = Some (x, st).
+  Proof.
+    intro Hxd. destruct (from_entry_of_attr k x Hs Hxd) as [fe [Hfe Htx]].
+    destruct (from_for_of_entry k Hs fe x Hfe Htx) as [st [Hfs Hff]].
+    destruct (sym_parts k Hs) as [_ [_ [_ [_ [_ [_ [_ Hent]]]]]]].
+    assert (He := Hent x Hxd). unfold entry_ok in He. rewrite Hff in He.
+    destruct (to_for k x) as [[g r]|] eqn:Etf; [|discriminate He].
+    apply andb_true_iff in He as [Hg _]. apply String.eqb_eq in Hg.
+    exists fe, g, r, st. repeat split; try assumption. symmetry. exact Hg.
+  Qed.
+
+  (* reading back an attribute the blank sliver carries *)
+  Theorem upd_get_written p x w :
+    settable k p = Some x -> aget x a1 = Some w -> get_property k p (aupdate d pd) = Ok (Some w).
+  Proof.
+    intros Hset Hw. destruct (settable_parts k p x Hset) as [st0 [gk [Hfs [Hfg Hxd]]]].
+    destruct (weak_parts k a1 Hwk) as [Hkeys Hweak].
+    destruct (alookup_in_keys x a1) as [ov Hov]; [rewrite Hkeys; exact Hxd|].
+    unfold aget in Hw. rewrite Hov in Hw. subst ov.
+    assert (Hattr : attr_ok k a1 x = true).
+    { destruct (Hweak x Hxd) as [Hn|Hok]; [|exact Hok]. unfold aget in Hn. rewrite Hov in Hn. discriminate Hn. }
+    destruct (entry_of_attr x Hxd) as [fe [g [r [st [Hfe [Htx [Eg [Etf _]]]]]]]].
+    destruct (attr_emits k a1 x w Hs Hxd Hattr Hov) as [g' [r' [pv [Etf' Hem]]]].
+    rewrite Etf in Etf'. inversion Etf'; subst g' r'.
+    destruct (pd_lookup x g r Hxd Etf) as [o [Hl Ho]].
+    assert (Ho' : o = Some pv) by (destruct r; rewrite Hem in Ho; inversion Ho; reflexivity). subst o.
+    destruct upd_readable as [rr [Hr Hlk]].
+    unfold get_property. rewrite Hr. cbn [bind]. rewrite Hfg.
+    destruct (upd_cases fe Hfe) as [[Hnone _]|[pv' [_ Heq]]].
+    - rewrite Eg in Hnone. rewrite Hl in Hnone. discriminate Hnone.
+    - specialize (Hlk fe _ Hfe Heq). unfold rd in Hlk. rewrite Htx in Hlk. cbn [fst snd] in Hlk.
+      unfold aget in Hlk. rewrite Hov in Hlk. rewrite Hlk. reflexivity.
+  Qed.
+
+  (* frame: a property the blank sliver does not carry reads as before *)
+  Theorem upd_get_frame p x :
+    settable k p = Some x -> aget x a1 = None -> always_written k x = false ->
+    get_property k p (aupdate d pd) = get_property k p d.
+  Proof.
+    intros Hset Hw Hal. destruct (settable_parts k p x Hset) as [st0 [gk [Hfs [Hfg Hxd]]]].
+    destruct (weak_parts k a1 Hwk) as [Hkeys Hweak].
+    destruct (alookup_in_keys x a1) as [ov Hov]; [rewrite Hkeys; exact Hxd|].
+    unfold aget in Hw. rewrite Hov in Hw. subst ov.
+    destruct (entry_of_attr x Hxd) as [fe [g [r [st [Hfe [Htx [Eg [Etf _]]]]]]]].
+    assert (Hsk := attr_skipped k a1 x g r Etf Hov Hal).
+    destruct (pd_lookup x g r Hxd Etf) as [o [Hl Ho]].
+    assert (Ho' : o = None) by (destruct r; rewrite Hsk in Ho; inversion Ho; reflexivity). subst o.
+    destruct upd_readable as [rr [Hr Hlk]].
+    destruct (readable_parts k d Hrd) as [[r0 Hr0] _].
+    destruct (from_props_lookup k d Hs (from_props_all_ok k d r0 Hr0)) as [r0' [Hr0' Hlk0]].
+    rewrite Hr0 in Hr0'. inversion Hr0'; subst r0'.
+    unfold get_property. rewrite Hr, Hr0. cbn [bind]. rewrite Hfg.
+    destruct (from_props_all_ok k d r0 Hr0 fe Hfe) as [xv Hxv].
+    destruct (upd_cases fe Hfe) as [[_ Heq]|[pv' [Hsome _]]].
+    - rewrite <- Heq in Hxv. assert (E1 := Hlk fe xv Hfe Hxv). rewrite Heq in Hxv.
+      assert (E0 := Hlk0 fe xv Hfe Hxv).
+      assert (Et := from_val_target k d fe xv Hxv). rewrite Htx in Et.
+      assert (Ex : fst xv = x) by (inversion Et; reflexivity).
+      rewrite Ex in E1, E0. rewrite E1, E0. reflexivity.
+    - rewrite Eg in Hsome. rewrite Hl in Hsome. discriminate Hsome.
+  Qed.
+End Update.
 
 (* ---------- get after unset ---------- *)
 Lemma absent_ok_entry k fe :
@@ -315,7 +414,7 @@ Proof.
   destruct (settable_parts k p x Hset) as [st [gk [Hfs [Hfg Hxd]]]].
   destruct (readable_parts k d Hrd) as [[r0 Hr0] NDd].
   exists (aremove g d). split.
-  { unfold set_property, unset_property. rewrite Hmap, Hnu. reflexivity. }
+  { unfold set_property, set_property_with, unset_property. rewrite Hmap, Hnu. reflexivity. }
   assert (Hall : forall fe, In fe (from_table k) ->
             (snd (fst fe) = g /\ from_val k (aremove g d) fe = from_val k [] fe) \/
             (snd (fst fe) <> g /\ from_val k (aremove g d) fe = from_val k d fe)).
